@@ -8,6 +8,7 @@ import (
 	"encoding/hex"
 	"errors"
 	"fmt"
+	"github.com/bloxapp/ssv/operator/keys"
 	"regexp"
 	"strings"
 	"time"
@@ -47,6 +48,10 @@ const (
 	// handshaker.updateNodeSubnets (FromString -> SubnetsIndex.UpdatePeerSubnets), then
 	// connHandler.sharesEnoughSubnets / connManager (GetPeerSubnets -> records.SharedSubnets)
 	eHandshakeSubnets = "handshake subnets: FromString->SubnetsIndex.UpdatePeerSubnets->SharedSubnets"
+	// the parser of the handshake's peer-supplied SenderPublicKey (connections.SignatureCheckFilter)
+	// and of the operator keys the registry contract hands the node (signature verification of
+	// signed envelopes): keys.PublicKeyFromString, then Verify
+	eSenderKey = "keys.PublicKeyFromString+Verify (handshake sender key / registered operator key)"
 )
 
 var allSubnets = bytes.Repeat([]byte{1}, 128)
@@ -435,6 +440,19 @@ func (rn *runner) run(c *Case) (res Result, engineErr error) {
 			_ = s.Active()
 			_ = s.Clone()
 			res.Class, res.Beyond = fmt.Sprintf("ok len=%d", len(s)), true
+		}
+	case eSenderKey:
+		call = func() {
+			pk, err := keys.PublicKeyFromString(string(c.data))
+			if err != nil {
+				res.Class = "error: " + errClass(err.Error())
+				return
+			}
+			if err := pk.Verify([]byte("c08"), make([]byte, 256)); err != nil {
+				res.Class, res.Beyond = "ok: key parsed, dummy signature refused", true
+				return
+			}
+			res.Class, res.Beyond = "ok", true
 		}
 	case eHandshakeSubnets:
 		call = func() {
